@@ -398,7 +398,7 @@ func main() {
 			_ = checkCase(drv, r.Doc, docs()[r.Doc], r.Args, &res)
 			return res.Findings
 		},
-		Rule: "every schema document with 0-2 objects (alpha, beta) x 0-2 properties each x type ids {integer, float, string, bool, ref, list} (1893 documents) x argument forms {no ignore argument, ignore 'beta', ignore a non-existent object}; for each, every iteration order of every map the generator ranges over (all permutations), twice; non-trivial = distinct (document, argument form) pairs; evaluations = generator executions",
+		Rule: "every schema document with 0-2 objects (alpha, beta) x 0-2 properties each x type ids {integer, float, string, bool, ref, list} (1893 documents) x argument forms {no ignore argument, ignore 'beta', ignore a non-existent object}; for each, every iteration order of every map the generator ranges over (all permutations), once in an empty directory and once in a directory that still holds an older, longer output file; non-trivial = distinct (document, argument form) pairs; evaluations = generator executions",
 		Assumptions: []string{
 			"object and property names are valid lower-case identifiers; the expected identifier is the name with its first letter upper-cased",
 			"gen.go is compiled from the working tree with `range` over maps routed through the map-order seam and main renamed; nothing else is changed",
